@@ -19,7 +19,8 @@ RUNS = {"quick": 4000, "thorough": 100000}
 CHUNK = {"quick": 40, "thorough": 200}
 PROBES = ["body_with_crlfcrlf", "body_with_nul", "body_large", "param_binary", "param_plus_encoding", "header_value_colon_space",
           "header_value_high_bytes", "no_headers", "path_with_semicolon", "status_edge", "malformed_rejected",
-          "many_params", "session_population", "empty_body", "reparse_after_history", "param_reserved_char_unencoded"]
+          "many_params", "session_population", "empty_body", "reparse_after_history", "param_reserved_char_unencoded",
+          "header_names_differ_in_case_only", "more_than_64_params", "target_not_an_absolute_path"]
 RULE = ("seeded plans: 85% shaped messages - 8-20 messages per plan: requests (token methods, ASCII paths incl. ';', "
         "parameter maps with arbitrary key/value bytes and non-empty values percent-encoded with %20 or '+' (the sender leaves a "
         "random subset of the reserved characters ?/:@!$'()*,;= unencoded), header maps "
@@ -53,12 +54,15 @@ _COMMON = ["Content-Type", "content-type", "CONTENT-TYPE", "Cookie", "cookie", "
 def _headers(rng):
     hs = []
     seen = set()
+    case_twins = rng.random() < 0.1
     for _ in range(rng.choice([0, 1, 2, 3, 5, 8])):
         # the same header names come back across messages of one plan in different spellings
         k = rng.choice(_COMMON) if rng.random() < 0.4 else _w(rng, 1, 12)
-        if k.lower() in seen:
+        # (names are unique as byte strings; one message in ten may carry two names that differ in letter case only - two
+        # distinct keys of the header map)
+        if (k if case_twins else k.lower()) in seen:
             continue
-        seen.add(k.lower())
+        seen.add(k if case_twins else k.lower())
         r = rng.random()
         if r < 0.3:
             v = (_w(rng, 0, 8) + ": " + _w(rng, 0, 8)).encode()
@@ -69,7 +73,7 @@ def _headers(rng):
         else:
             v = _w(rng, 1, 30, _TOKEN + " =;,/").encode()
         hs.append([hx(k.encode()), hx(v)])
-    if rng.random() < 0.15 and "content-length" not in seen:
+    if rng.random() < 0.15 and not any(x.lower() == "content-length" for x in seen):
         # a Content-Length that may or may not agree with what follows: the body is everything behind the blank line
         hs.append([hx(rng.choice([b"Content-Length", b"content-length"])), hx(str(rng.choice([0, 1, 5, 100, 10 ** 6])).encode())])
     return hs
@@ -97,7 +101,7 @@ def generate(rng, tier, index):
         if r < 0.5:
             params = []
             seen = set()
-            for _ in range(rng.choice([0, 0, 1, 2, 3, 10])):
+            for _ in range(rng.choice([0, 0, 1, 2, 3, 10] * 5 + [64, 65, 66, 100, 130])):
                 k = rng.choice([_w(rng, 1, 8).encode(), _bytes(rng, 1, 6)])
                 if k in seen:
                     continue
@@ -108,6 +112,9 @@ def generate(rng, tier, index):
             path = "/" + _w(rng, 0, 30, _PATHCH.replace("%", ""))
             if path.startswith("//"):
                 path = "/x" + path[2:]
+            if rng.random() < 0.06:
+                # request targets that are not an absolute path: the asterisk form, a relative reference
+                path = rng.choice(["*", "*", _w(rng, 1, 10) + ".html", _w(rng, 1, 6) + ".php/" + _w(rng, 0, 4), _w(rng, 1, 12, _TOKEN + "./~")])
             msgs.append({"type": "req", "method": hx(_w(rng, 1, 8, _TOKEN.replace("_", "")).encode()), "path": hx(path.encode()),
                          "params": params, "headers": _headers(rng), "body": hx(_body(rng)), "plus": rng.random() < 0.5,
                          # reserved characters the sender leaves unencoded inside the query (legal per RFC 3986)
@@ -149,6 +156,8 @@ def execute(plan: dict) -> Result:
             res.probes["empty_body"] += 1
         if not headers:
             res.probes["no_headers"] += 1
+        if len({k.lower() for k, _ in headers}) < len(headers):
+            res.probes["header_names_differ_in_case_only"] += 1
         if any(b": " in v for _, v in headers):
             res.probes["header_value_colon_space"] += 1
         if any(any(c > 127 for c in v) for _, v in headers):
@@ -169,6 +178,10 @@ def execute(plan: dict) -> Result:
                 res.probes["param_plus_encoding"] += 1
             if len(params) > 5:
                 res.probes["many_params"] += 1
+            if len(params) > 64:
+                res.probes["more_than_64_params"] += 1
+            if not path.startswith(b"/"):
+                res.probes["target_not_an_absolute_path"] += 1
             if b";" in path:
                 res.probes["path_with_semicolon"] += 1
             try:
